@@ -136,6 +136,24 @@ def run_stack(li, idxs, acc, judged_prefixes):
             acc.raised["RecursionError"] += 1
             return
         except Exception as e:
+            # inconclusive only if the failure is inherent to (middleware, data): the same middleware in in-place mode,
+            # which copies nothing, must fail as well on an equal fresh library
+            if depth == 0 and not label.startswith("SortBlocks"):
+                ok_inplace = False
+                try:
+                    twin = fac()
+                    twin._allow_inplace_modification = True
+                    twin.transform(base_library(li))
+                    ok_inplace = True
+                except Exception:
+                    pass
+                if ok_inplace:
+                    acc.violation(
+                        {"oracle": "copy_mode_returns_a_result_where_inplace_mode_does", "middleware": label.split("(")[0], "exception": type(e).__name__},
+                        {"case": {"library": li, "stack": [label], "stack_idx": list(idxs)}, "observed": f"{type(e).__name__}: {str(e)[:200]}", "expected": "a result (the in-place twin of this middleware succeeds on an equal library)"},
+                        size=li,
+                    )
+                    return
             acc.raised[type(e).__name__] += 1
             return
         prefix = (li,) + tuple(idxs[: depth + 1])
